@@ -2706,3 +2706,576 @@ example : finalTaxa [] [pA, pC] = [0, 1, 2] ∧ pA.rows.length ≠ (finalTaxa []
 example : concatFromStreamsNS 0 (fun o : Option Parsed => o) [some pA, some pC] = .error (.concat .valueError) :=
   fromStreamsNS_incomplete_refused 0 _ _ [pA, pC] rfl pA (by simp) (by decide) (by decide)
 end DendroModel.C19.Aux
+
+/-! ### last round: exact refusal kinds of `concatenate` -/
+namespace DendroModel.C19
+
+/-- `concatenate([])`: `char_matrices[0]` raises `IndexError` -/
+theorem concat_nil : concatenate [] = .error .indexError := rfl
+
+/-- over a namespace WITHOUT taxa the first matrix decides: with rows it fails the row-count guard (`ValueError`), without
+    rows it reaches `cm[0]` (`IndexError`); later matrices are never looked at -/
+theorem concat_empty_namespace_error (m0 : Matrix) (rest : List Matrix) (ht : m0.taxa = []) :
+    concatenate (m0 :: rest) = .error (if m0.rows = [] then .indexError else .valueError) := by
+  simp only [concatenate, ht, concatLoop, concatStep]
+  by_cases hr : m0.rows = []
+  · simp [hr]
+  · have : m0.rows.length ≠ 0 := by
+      intro h; exact hr (List.eq_nil_of_length_eq_zero h)
+    simp [hr, this]
+
+/-- (e) the outcome of `concatenate`, completely: which inputs succeed, which are refused with `ValueError`, which end in
+    `IndexError` — there is no other outcome -/
+theorem concat_outcome (ms : List Matrix) :
+    (ms = [] ∧ concatenate ms = .error .indexError) ∨
+    (∃ m0 rest, ms = m0 :: rest ∧ m0.taxa = [] ∧ m0.rows = [] ∧ concatenate ms = .error .indexError) ∨
+    (∃ m0 rest, ms = m0 :: rest ∧ m0.taxa = [] ∧ m0.rows ≠ [] ∧ concatenate ms = .error .valueError) ∨
+    (∃ m0 rest, ms = m0 :: rest ∧ m0.taxa ≠ [] ∧ (∃ m ∈ ms, ¬ Concatenable m0.ns m0.taxa m0.rows.length m) ∧
+      concatenate ms = .error .valueError) ∨
+    (∃ m0 rest, ms = m0 :: rest ∧ m0.taxa ≠ [] ∧ (∀ m ∈ ms, Concatenable m0.ns m0.taxa m0.rows.length m) ∧
+      ∃ r, concatenate ms = .ok r) := by
+  cases ms with
+  | nil => left; exact ⟨rfl, rfl⟩
+  | cons m0 rest =>
+    right
+    by_cases ht : m0.taxa = []
+    · have h := concat_empty_namespace_error m0 rest ht
+      by_cases hr : m0.rows = []
+      · left; exact ⟨m0, rest, rfl, ht, hr, by simpa [hr] using h⟩
+      · right; left; exact ⟨m0, rest, rfl, ht, hr, by simpa [hr] using h⟩
+    · right; right
+      by_cases hall : ∀ m ∈ m0 :: rest, Concatenable m0.ns m0.taxa m0.rows.length m
+      · right; exact ⟨m0, rest, rfl, ht, hall, concat_succeeds m0 rest ht hall⟩
+      · left
+        refine ⟨m0, rest, rfl, ht, ?_, ?_⟩
+        · simp only [Classical.not_forall] at hall
+          obtain ⟨m, hm, hn⟩ := hall
+          exact ⟨m, hm, hn⟩
+        · cases hc : concatenate (m0 :: rest) with
+          | ok r => exact absurd ((concat_ok_iff m0 rest ht).mp ⟨r, hc⟩) hall
+          | error e => rw [concat_error_kind m0 rest ht e hc]
+
+/-- `IndexError` exactly for the empty list and for a first matrix that is empty over an empty namespace -/
+theorem concat_indexError_iff (ms : List Matrix) :
+    concatenate ms = .error .indexError ↔ ms = [] ∨ ∃ m0 rest, ms = m0 :: rest ∧ m0.taxa = [] ∧ m0.rows = [] := by
+  constructor
+  · intro h
+    rcases concat_outcome ms with ⟨h1, _⟩ | ⟨m0, rest, h1, h2, h3, _⟩ | ⟨_, _, _, _, _, he⟩ | ⟨_, _, _, _, _, he⟩ |
+      ⟨_, _, _, _, _, r, he⟩
+    · exact Or.inl h1
+    · exact Or.inr ⟨m0, rest, h1, h2, h3⟩
+    · rw [he] at h; cases h
+    · rw [he] at h; cases h
+    · rw [he] at h; cases h
+  · rintro (h | ⟨m0, rest, h1, h2, h3⟩)
+    · subst h; rfl
+    · subst h1
+      simpa [h3] using concat_empty_namespace_error m0 rest h2
+
+end DendroModel.C19
+
+namespace DendroModel.C19.Aux
+open DendroModel.C19
+example : concatenate [{ mA with taxa := [], rows := [] }, mB] = .error .indexError := by
+  simpa using concat_empty_namespace_error { mA with taxa := [], rows := [] } [mB] rfl
+example : concatenate [{ mA with taxa := [] }, mB] = .error .valueError := by
+  have := concat_empty_namespace_error { mA with taxa := [] } [mB] rfl
+  simpa [mA] using this
+end DendroModel.C19.Aux
+
+/-! ### insertion order of the rows (Python dict order) — specified here, deliberately NOT part of the correspondence -/
+namespace DendroModel.C19
+
+/-- keys of `ns` that are not yet present are appended, in the order in which they first appear -/
+def appendNew (ks ns : List Taxon) : List Taxon :=
+  ns.foldl (fun acc k => if acc.contains k then acc else acc ++ [k]) ks
+
+end DendroModel.C19
+
+namespace DendroModel.C19.Aux
+open DendroModel.C19
+
+theorem keys_del (t : Taxon) (rs : Rows) : keys (del t rs) = (keys rs).filter (fun k => k != t) := by
+  induction rs with
+  | nil => simp [del, keys]
+  | cons kv rest ih =>
+    obtain ⟨k, v⟩ := kv
+    simp only [keys, del] at ih ⊢
+    by_cases hk : k = t
+    · subst hk; simp [ih]
+    · simp [hk, ih]
+
+theorem has_eq_contains (t : Taxon) (rs : Rows) : has t rs = (keys rs).contains t := by
+  by_cases h : t ∈ keys rs
+  · rw [has_of_mem_keys t rs h]; simp [h]
+  · have : get? t rs = none := get?_of_not_mem t rs h
+    simp [has_eq, this, h]
+
+theorem filter_ne_of_not_mem (t : Taxon) (l : List Taxon) (h : t ∉ l) : l.filter (fun k => k != t) = l := by
+  induction l with
+  | nil => rfl
+  | cons a as ih =>
+    simp only [List.mem_cons, not_or] at h
+    have : a ≠ t := fun e => h.1 e.symm
+    simp [this, ih h.2]
+
+theorem filter_true' (l : List Taxon) : l.filter (fun _ => true) = l := by
+  induction l with
+  | nil => rfl
+  | cons a as ih => simp [ih]
+
+theorem keys_foldl_appendNew {α} (key : α → Taxon) (step : Rows → α → Rows) (l : List α)
+    (hstep : ∀ acc a, keys (step acc a) = if has (key a) acc then keys acc else keys acc ++ [key a])
+    (s : Rows) : keys (l.foldl step s) = appendNew (keys s) (l.map key) := by
+  induction l generalizing s with
+  | nil => simp [appendNew]
+  | cons a as ih =>
+    simp only [List.foldl_cons, List.map_cons, appendNew]
+    rw [ih, hstep, has_eq_contains]
+    rfl
+
+theorem keys_foldl_const {α} (step : Rows → α → Rows) (l : List α)
+    (hstep : ∀ acc a, keys (step acc a) = keys acc) (s : Rows) : keys (l.foldl step s) = keys s := by
+  induction l generalizing s with
+  | nil => rfl
+  | cons a as ih => simp only [List.foldl_cons]; rw [ih, hstep]
+
+theorem keys_foldl_filter (p : Taxon → Bool) (step : Rows → Taxon → Rows) (l : List Taxon)
+    (hstep : ∀ acc t, keys (step acc t) = if p t then keys acc else (keys acc).filter (fun k => k != t))
+    (s : Rows) : keys (l.foldl step s) = (keys s).filter (fun k => !(l.contains k && !p k)) := by
+  induction l generalizing s with
+  | nil => simp [filter_true']
+  | cons a as ih =>
+    simp only [List.foldl_cons]
+    rw [ih, hstep]
+    by_cases hp : p a = true
+    · simp only [hp, if_true]
+      apply List.filter_congr
+      intro k _
+      by_cases hka : k = a
+      · subst hka; simp [hp]
+      · simp [hka]
+    · simp only [hp, Bool.false_eq_true, if_false, List.filter_filter]
+      apply List.filter_congr
+      intro k _
+      by_cases hka : k = a
+      · subst hka; simp [hp]
+      · simp [hka]
+
+theorem keys_set_has (t : Taxon) (r : Row) (rs : Rows) :
+    keys (set t r rs) = if has t rs then keys rs else keys rs ++ [t] := by
+  rw [keys_set, has_eq_contains]; simp
+
+end DendroModel.C19.Aux
+
+namespace DendroModel.C19
+open DendroModel.C19.Aux
+
+/-- dict semantics of the row store: assigning to an existing key keeps its position, a new key goes last; deleting a
+    key keeps the relative order of the others -/
+theorem order_set_del (t : Taxon) (r : Row) (rs : Rows) :
+    keys (set t r rs) = (if t ∈ keys rs then keys rs else keys rs ++ [t]) ∧
+    keys (del t rs) = (keys rs).filter (fun k => k != t) :=
+  ⟨keys_set t r rs, keys_del t rs⟩
+
+/-- insertion order after the binary row operations: `add`, `update`, `extend(…, True)`, `extend_matrix` append the taxa
+    new to `self` in `other`'s order; `replace` and plain `extend` leave the order as it is -/
+theorem order_binary (s o : Rows) :
+    keys (addSeqs s o) = appendNew (keys s) (keys o) ∧ keys (updateSeqs s o) = appendNew (keys s) (keys o) ∧
+    keys (extendSeqs true s o) = appendNew (keys s) (keys o) ∧ keys (extendMatrix s o) = appendNew (keys s) (keys o) ∧
+    keys (replaceSeqs s o) = keys s ∧ keys (extendSeqs false s o) = keys s := by
+  refine ⟨?_, ?_, ?_, ?_, ?_, ?_⟩
+  · exact keys_foldl_appendNew Prod.fst _ o (fun acc a => by
+      by_cases h : has a.1 acc = true <;> simp [h, keys_set_has]) s
+  · exact keys_foldl_appendNew Prod.fst _ o (fun acc a => keys_set_has a.1 a.2 acc) s
+  · exact keys_foldl_appendNew Prod.fst _ o (fun acc a => by
+      by_cases h : has a.1 acc = true <;> simp [h, keys_set_has]) s
+  · exact keys_foldl_appendNew Prod.fst _ o (fun acc a => by
+      by_cases h : has a.1 acc = true <;> simp [h, keys_set_has]) s
+  · exact keys_foldl_const _ o (fun acc a => by
+      by_cases h : has a.1 acc = true <;> simp [h, keys_set_has]) s
+  · exact keys_foldl_const _ o (fun acc a => by
+      by_cases h : has a.1 acc = true <;> simp [h, keys_set_has]) s
+
+/-- insertion order after the unary operations: `fill`, `pack`'s padding and `export` keep it; `fill_taxa` appends the
+    namespace taxa that had no row, in namespace order; `discard`/`keep` (and a `remove` that returns) filter it -/
+theorem order_unary (taxa : List Taxon) (s : Rows) :
+    (∀ f, keys (mapNsRows f taxa s) = keys s) ∧ keys (fillTaxa taxa s) = appendNew (keys s) taxa ∧
+    keys (discardSeqs taxa s) = (keys s).filter (fun k => !taxa.contains k) ∧
+    keys (keepSeqs taxa s) = (keys s).filter (fun k => taxa.contains k) ∧
+    (∀ s', removeSeqs taxa s = (s', none) → keys s' = (keys s).filter (fun k => !taxa.contains k)) := by
+  refine ⟨?_, ?_, ?_, ?_, ?_⟩
+  · intro f
+    exact keys_foldl_const _ taxa (fun acc a => by
+      cases hg : get? a acc with
+      | none => rfl
+      | some r =>
+        simp only []
+        rw [keys_set_has]
+        simp [has_eq, hg]) s
+  · have := keys_foldl_appendNew (fun t : Taxon => t) (fun acc t => if has t acc then acc else set t [] acc) taxa
+      (fun acc a => by by_cases h : has a acc = true <;> simp [h, keys_set_has]) s
+    simpa [fillTaxa] using this
+  · have := keys_foldl_filter (fun _ => false) (fun acc t => if has t acc then del t acc else acc) taxa
+      (fun acc t => by
+        simp only [Bool.false_eq_true, if_false]
+        by_cases h : has t acc = true
+        · simp [h, keys_del]
+        · simp only [h, Bool.false_eq_true, if_false]
+          rw [filter_ne_of_not_mem]
+          intro hm; exact h (has_of_mem_keys t acc hm)) s
+    simpa [discardSeqs] using this
+  · have := keys_foldl_filter (fun k => taxa.contains k) (fun acc k => if taxa.contains k then acc else del k acc) (keys s)
+      (fun acc t => by by_cases h : t ∈ taxa <;> simp [h, keys_del]) s
+    simp only [keepSeqs]
+    rw [this]
+    apply List.filter_congr
+    intro k hk
+    by_cases h : k ∈ taxa <;> simp [h, hk]
+  · intro s' h
+    induction taxa generalizing s with
+    | nil => simp [removeSeqs] at h; subst h; simp [filter_true']
+    | cons t ts ih =>
+      simp only [removeSeqs] at h
+      by_cases hh : has t s = true
+      · simp only [hh, if_true] at h
+        rw [ih _ h, keys_del, List.filter_filter]
+        apply List.filter_congr
+        intro k _
+        by_cases hkt : k = t
+        · subst hkt; simp
+        · simp [hkt]
+      · simp [hh] at h
+
+/-- `sequence_size` / `vector_size` is the length of the FIRST-INSERTED row (0 for an empty matrix) — the one place where
+    insertion order reaches a result (`concatenate` uses it as subset width, on rectangular matrices only) -/
+theorem vectorSize_first (rs : Rows) :
+    vectorSize rs = match keys rs with
+      | [] => 0
+      | k :: _ => (rowOf k rs).length := by
+  cases rs with
+  | nil => rfl
+  | cons kv rest => obtain ⟨k, v⟩ := kv; simp [vectorSize, keys, rowOf, get?]
+
+end DendroModel.C19
+
+namespace DendroModel.C19.Aux
+open DendroModel.C19
+example : keys (addSeqs [(2, [1]), (0, [])] [(0, [5]), (1, [6]), (2, [7])]) = [2, 0, 1] := by decide
+example : appendNew [2, 0] [0, 1, 2] = [2, 0, 1] := by decide
+example : keys (keepSeqs [0, 1] mB.rows) = [1, 0] ∧ removeSeqs [0] mB.rows = ([(1, [5])], none) := by decide
+example : vectorSize mB.rows = 1 := by decide
+end DendroModel.C19.Aux
+
+/-! ### which rows a concatenation has, in which order; the round trip without the "missing = empty" reading -/
+namespace DendroModel.C19.Aux
+open DendroModel.C19
+
+theorem mem_appendNew (ks ns : List Taxon) (k : Taxon) : k ∈ appendNew ks ns ↔ k ∈ ks ∨ k ∈ ns := by
+  induction ns generalizing ks with
+  | nil => simp [appendNew]
+  | cons a as ih =>
+    simp only [appendNew, List.foldl_cons] at ih ⊢
+    rw [ih]
+    by_cases ha : ks.contains a = true
+    · have : a ∈ ks := by simpa using ha
+      simp only [ha, if_true, List.mem_cons]
+      constructor
+      · rintro (h | h); exact Or.inl h; exact Or.inr (Or.inr h)
+      · rintro (h | h | h); exact Or.inl h; exact Or.inl (h ▸ this); exact Or.inr h
+    · simp only [ha, Bool.false_eq_true, if_false, List.mem_append, List.mem_cons, List.not_mem_nil, or_false]
+      constructor
+      · rintro ((h | h) | h); exact Or.inl h; exact Or.inr (Or.inl h); exact Or.inr (Or.inr h)
+      · rintro (h | h | h); exact Or.inl (Or.inl h); exact Or.inl (Or.inr h); exact Or.inr h
+
+theorem appendNew_of_subset (ks ns : List Taxon) (h : ∀ k ∈ ns, k ∈ ks) : appendNew ks ns = ks := by
+  induction ns with
+  | nil => rfl
+  | cons a as ih =>
+    have ha : ks.contains a = true := by simpa using h a (by simp)
+    simp only [appendNew, List.foldl_cons, ha, if_true]
+    exact ih (fun k hk => h k (by simp [hk]))
+
+theorem appendNew_nil_nodup (ns : List Taxon) (h : ns.Nodup) : ∀ ks, (∀ k ∈ ns, k ∉ ks) → appendNew ks ns = ks ++ ns := by
+  induction ns with
+  | nil => intro ks _; simp [appendNew]
+  | cons a as ih =>
+    intro ks hd
+    obtain ⟨ha, has'⟩ := List.nodup_cons.mp h
+    have hc : ks.contains a = false := by simpa using hd a (by simp)
+    simp only [appendNew, List.foldl_cons, hc, Bool.false_eq_true, if_false]
+    have := ih has' (ks ++ [a]) (fun k hk => by
+      simp only [List.mem_append, List.mem_singleton, not_or]
+      exact ⟨hd k (by simp [hk]), fun e => ha (e ▸ hk)⟩)
+    simp only [appendNew] at this
+    rw [this]; simp
+
+theorem concatLoop_order (ns : Nat) (taxa : List Taxon) (nseqs : Nat) :
+    ∀ (ms : List Matrix) (st st' : CState) (cidx : Nat),
+      concatLoop ns taxa nseqs st cidx ms = .ok st' →
+      keys st'.acc = ms.foldl (fun ks m => appendNew ks (keys m.rows)) (keys st.acc) := by
+  intro ms
+  induction ms with
+  | nil => intro st st' cidx h; simp only [concatLoop, Except.ok.injEq] at h; subst h; rfl
+  | cons cm rest ih =>
+    intro st st' cidx h
+    simp only [concatLoop] at h
+    split at h
+    · cases h
+    · next st1 hstep =>
+      have hacc := (concatStep_ok _ _ _ _ _ _ _ hstep).2.1
+      rw [ih st1 st' _ h, hacc, (order_binary st.acc cm.rows).2.2.2.1]
+      rfl
+
+theorem mem_fold_appendNew (ms : List Matrix) (ks : List Taxon) (k : Taxon) :
+    k ∈ ms.foldl (fun ks m => appendNew ks (keys m.rows)) ks ↔ k ∈ ks ∨ ∃ m ∈ ms, k ∈ keys m.rows := by
+  induction ms generalizing ks with
+  | nil => simp
+  | cons m ms ih =>
+    simp only [List.foldl_cons]
+    rw [ih, mem_appendNew]
+    constructor
+    · rintro ((h | h) | ⟨x, hx, hk⟩)
+      · exact Or.inl h
+      · exact Or.inr ⟨m, by simp, h⟩
+      · exact Or.inr ⟨x, by simp [hx], hk⟩
+    · rintro (h | ⟨x, hx, hk⟩)
+      · exact Or.inl (Or.inl h)
+      · simp only [List.mem_cons] at hx
+        rcases hx with hx | hx
+        · subst hx; exact Or.inl (Or.inr hk)
+        · exact Or.inr ⟨x, hx, hk⟩
+
+theorem has_iff_mem_keys (t : Taxon) (rs : Rows) : has t rs = true ↔ t ∈ keys rs := by
+  rw [has_eq_contains]; simp
+
+end DendroModel.C19.Aux
+
+namespace DendroModel.C19
+open DendroModel.C19.Aux
+
+/-- (a) insertion order of a concatenation: the first matrix's row order, then — per later matrix, in argument order — the
+    taxa not seen before, in that matrix's order -/
+theorem concat_order (ms : List Matrix) (r : Matrix) (h : concatenate ms = .ok r) :
+    keys r.rows = ms.foldl (fun ks m => appendNew ks (keys m.rows)) [] := by
+  cases ms with
+  | nil => simp [concatenate] at h
+  | cons m0 rest =>
+    simp only [concatenate] at h
+    split at h
+    · cases h
+    · next st hst =>
+      simp only [Except.ok.injEq] at h
+      subst h
+      simpa [keys] using concatLoop_order _ _ _ _ _ _ _ hst
+
+/-- (a) which rows the result HAS, with no assumption on the inputs: a taxon has a row in the concatenation iff it has
+    one in some source matrix -/
+theorem concat_has_iff (ms : List Matrix) (r : Matrix) (h : concatenate ms = .ok r) (t : Taxon) :
+    has t r.rows = true ↔ ∃ m ∈ ms, has t m.rows = true := by
+  rw [has_iff_mem_keys, concat_order ms r h, mem_fold_appendNew]
+  simp [has_iff_mem_keys]
+
+/-- for well-formed complete inputs (what `concatenate` accepts) the result keeps exactly the FIRST matrix's row order -/
+theorem concat_order_first (m0 : Matrix) (rest : List Matrix) (r : Matrix) (h : concatenate (m0 :: rest) = .ok r)
+    (hwf : ∀ m ∈ m0 :: rest, WF m ∧ m.taxa = m0.taxa) (htx : m0.taxa ≠ []) : keys r.rows = keys m0.rows := by
+  rw [concat_order _ r h]
+  simp only [List.foldl_cons]
+  have h0 : appendNew [] (keys m0.rows) = keys m0.rows := by
+    have := appendNew_nil_nodup (keys m0.rows) (hwf m0 (by simp)).1.1 [] (by simp)
+    simpa using this
+  rw [h0]
+  have hsub : ∀ m ∈ rest, ∀ k ∈ keys m.rows, k ∈ keys m0.rows := by
+    intro m hm k hk
+    have hk' : k ∈ m0.taxa := (hwf m (by simp [hm])).2 ▸ (hwf m (by simp [hm])).1.2.1 k hk
+    exact (has_iff_mem_keys k m0.rows).mp
+      (concat_all_present m0 rest r h htx m0 (by simp) (hwf m0 (by simp)).1.1 (hwf m0 (by simp)).1.2.1 k hk')
+  clear h h0
+  induction rest with
+  | nil => rfl
+  | cons m ms ih =>
+    simp only [List.foldl_cons]
+    rw [appendNew_of_subset _ _ (hsub m (by simp))]
+    exact ih (fun x hx => hwf x (by
+      simp only [List.mem_cons] at hx ⊢
+      rcases hx with hx | hx
+      · exact Or.inl hx
+      · exact Or.inr (Or.inr hx))) (fun x hx => hsub x (by simp [hx]))
+
+/-- (a)+(b) the round trip stated on the rows themselves: exporting from a concatenation the subset recorded for a
+    source matrix yields, for every namespace taxon, a row that EXISTS and equals the row of that source matrix
+    (so a zero-width source row comes back as an empty row, not as "no row") -/
+theorem concat_export_roundtrip_exact (pre post : List Matrix) (m r : Matrix)
+    (h : concatenate (pre ++ m :: post) = .ok r)
+    (hnd : ∀ x ∈ pre ++ m :: post, (keys x.rows).Nodup)
+    (hin : ∀ x ∈ pre ++ m :: post, ∀ kv ∈ x.rows, kv.1 ∈ r.taxa)
+    (htaxa : r.taxa.Nodup)
+    (hall : ∀ t ∈ r.taxa, ∀ x ∈ pre ++ m :: post, has t x.rows = true) :
+    ∃ name idx e, r.subs[pre.length]? = some (name, idx) ∧ exportSub r name = .ok e ∧
+      ∀ t ∈ r.taxa, ∃ row, get? t m.rows = some row ∧ get? t e.rows = some row := by
+  obtain ⟨name, idx, e, hsub, hexp, hrow⟩ := concat_export_roundtrip pre post m r h hnd hin htaxa hall
+  refine ⟨name, idx, e, hsub, hexp, ?_⟩
+  intro t ht
+  have hm := hall t ht m (by simp)
+  simp only [has_eq, Option.isSome_iff_exists] at hm
+  obtain ⟨row, hmrow⟩ := hm
+  refine ⟨row, hmrow, ?_⟩
+  have hr : has t r.rows = true := (concat_has_iff _ r h t).mpr ⟨m, by simp, by simp [has_eq, hmrow]⟩
+  simp only [has_eq, Option.isSome_iff_exists] at hr
+  obtain ⟨x, hx⟩ := hr
+  have he : ∃ ix, e = exportIdx r ix := by
+    simp only [exportSub] at hexp
+    split at hexp
+    · cases hexp
+    · simp only [Except.ok.injEq] at hexp; exact ⟨_, hexp.symm⟩
+  obtain ⟨ix, rfl⟩ := he
+  have hget := (export_spec r htaxa ix t ht).1
+  rw [hx] at hget
+  have := hrow t ht
+  simp only [rowOf, hget, hmrow, Option.map_some, Option.getD_some] at this
+  rw [hget]
+  simp [this]
+
+end DendroModel.C19
+
+namespace DendroModel.C19.Aux
+open DendroModel.C19
+example : keys mAB.rows = keys mA.rows := concat_order_first mA [mB] mAB ex_concat ex_wf_pair (by decide)
+example : has 1 mAB.rows = true := (concat_has_iff [mA, mB] mAB ex_concat 1).mpr ⟨mB, by simp, by decide⟩
+example : ∃ name idx e, mAB.subs[1]? = some (name, idx) ∧ exportSub mAB name = .ok e ∧
+    ∀ t ∈ mAB.taxa, ∃ row, get? t mB.rows = some row ∧ get? t e.rows = some row :=
+  concat_export_roundtrip_exact [mA] [] mB mAB ex_concat (by decide) (by decide) (by decide) (by decide)
+end DendroModel.C19.Aux
+
+/-! ### the UNREPAIRED free-name loop does not terminate (why the repair, and the fuel-free definition, matter) -/
+namespace DendroModel.C19.Aux
+open DendroModel.C19
+
+/-- one round of the loop as it stood before the repair: `while cs_label in subsets: label = "%s_%03d" % (new_label, i); i += 1`
+    — the candidate is assigned to `label`, so `cs_label` (the variable the condition tests) never changes.
+    State = (cs_label, i); `none` = the loop has exited.  (Specification-side only: the driver cannot run a loop that
+    does not return; on the implementation this behaviour is what the harness reports as `Timeout-concat`.) -/
+def unrepairedRound (subs : List (Label × List Nat)) (st : Label × Nat) : Option (Label × Nat) :=
+  if hasSub subs st.1 then some (st.1, st.2 + 1) else none
+
+def rounds (subs : List (Label × List Nat)) : Nat → Label × Nat → Option (Label × Nat)
+  | 0, st => some st
+  | n + 1, st => match unrepairedRound subs st with
+    | none => none
+    | some st' => rounds subs n st'
+
+end DendroModel.C19.Aux
+
+namespace DendroModel.C19
+open DendroModel.C19.Aux
+
+/-- with a taken label the unrepaired loop is still running after ANY number of rounds (only the counter moves); with the
+    same input the repaired search `freeName` returns a free label (`freeName_fresh`) -/
+theorem unrepaired_search_never_halts (subs : List (Label × List Nat)) (base : Label) (h : hasSub subs base = true)
+    (n i : Nat) : rounds subs n (base, i) = some (base, i + n) ∧ hasSub subs (freeName subs base) = false := by
+  refine ⟨?_, freeName_fresh subs base⟩
+  induction n generalizing i with
+  | zero => rfl
+  | succ n ih =>
+    simp only [rounds, unrepairedRound, h, if_true]
+    rw [ih (i + 1)]
+    congr 2
+    omega
+
+end DendroModel.C19
+
+namespace DendroModel.C19.Aux
+open DendroModel.C19
+example : hasSub [(['x'], [0, 1])] ['X'] = true := by decide
+end DendroModel.C19.Aux
+
+namespace DendroModel.C19
+open DendroModel.C19.Aux
+
+/-- insertion order after element access: `matrix[t]` that creates a row and `matrix[t] = …` / `new_sequence` for a taxon
+    without a row put it LAST; assigning to an existing row keeps its place; `del matrix[t]` keeps the others' order -/
+theorem order_element (m : Matrix) (t : Taxon) (row : Row) :
+    (∀ m' r, getItem m t = .ok (m', r) → keys m'.rows = if has t m.rows then keys m.rows else keys m.rows ++ [t]) ∧
+    (∀ m', setItem m t row = .ok m' → keys m'.rows = if has t m.rows then keys m.rows else keys m.rows ++ [t]) ∧
+    (∀ m', newSequence m t row = .ok m' → keys m'.rows = keys m.rows ++ [t]) ∧
+    (∀ m', delItem m t = .ok m' → keys m'.rows = (keys m.rows).filter (fun k => k != t)) := by
+  refine ⟨?_, ?_, ?_, ?_⟩
+  · intro m' r h
+    simp only [getItem] at h
+    split at h
+    · next r0 hg =>
+      simp only [Except.ok.injEq, Prod.mk.injEq] at h
+      rw [← h.1]; simp [has_eq, hg]
+    · next hg =>
+      split at h
+      · simp only [Except.ok.injEq, Prod.mk.injEq] at h
+        rw [← h.1]
+        simp only [keys_set_has]
+      · cases h
+  · intro m' h
+    simp only [setItem] at h
+    split at h
+    · simp only [Except.ok.injEq] at h; rw [← h]; simp only [keys_set_has]
+    · cases h
+  · intro m' h
+    simp only [newSequence] at h
+    split at h
+    · cases h
+    · next hh =>
+      split at h
+      · simp only [Except.ok.injEq] at h; rw [← h]
+        simp only [keys_set_has]
+        simp [hh]
+      · cases h
+  · intro m' h
+    simp only [delItem] at h
+    split at h
+    · simp only [Except.ok.injEq] at h; rw [← h]; exact keys_del t m.rows
+    · cases h
+
+/-- `concatenate_from_streams` over the shared growing namespace succeeds exactly when, against the namespace as it is
+    after the LAST stream, every stream read is complete (as many rows as taxa) and rectangular -/
+theorem fromStreamsNS_ok_iff {σ : Type} (ns : Nat) (parse : σ → Option Parsed) (streams : List σ)
+    (p0 : Parsed) (rest : List Parsed) (h : streams.map parse = (p0 :: rest).map some)
+    (hne : finalTaxa [] (p0 :: rest) ≠ []) :
+    (∃ r, concatFromStreamsNS ns parse streams = .ok r) ↔
+      ∀ p ∈ p0 :: rest, p.rows.length = (finalTaxa [] (p0 :: rest)).length ∧
+        ∀ q ∈ items (finalTaxa [] (p0 :: rest)) p.rows,
+          q.2.length = (rowOf ((finalTaxa [] (p0 :: rest)).headD 0) p.rows).length := by
+  have hex : (∃ r, concatFromStreamsNS ns parse streams = .ok r) ↔
+      ∃ r, concatenate ((p0 :: rest).map (asMatrix ns (finalTaxa [] (p0 :: rest)))) = .ok r := by
+    rw [fromStreamsNS_eq ns parse streams (p0 :: rest) h]
+    cases concatenate ((p0 :: rest).map (asMatrix ns (finalTaxa [] (p0 :: rest)))) <;> simp
+  have key := concat_ok_iff (asMatrix ns (finalTaxa [] (p0 :: rest)) p0)
+    (rest.map (asMatrix ns (finalTaxa [] (p0 :: rest)))) (by simpa [asMatrix] using hne)
+  rw [hex]
+  simp only [List.map_cons] at key ⊢
+  rw [key]
+  constructor
+  · intro hc p hp
+    have := hc (asMatrix ns (finalTaxa [] (p0 :: rest)) p) (by
+      simp only [List.mem_cons, List.mem_map] at hp ⊢
+      rcases hp with hp | hp
+      · left; rw [hp]
+      · right; exact ⟨p, hp, rfl⟩)
+    exact ⟨by simpa [asMatrix] using this.2.1, by simpa [asMatrix] using this.2.2.2⟩
+  · intro hc m hm
+    simp only [List.mem_cons, List.mem_map] at hm
+    have h0 := hc p0 (by simp)
+    rcases hm with hm | ⟨p, hp, hm⟩
+    · subst hm
+      exact ⟨rfl, by simpa [asMatrix] using h0.1, rfl, by simpa [asMatrix] using h0.2⟩
+    · subst hm
+      have hp' := hc p (by simp [hp])
+      exact ⟨rfl, by simpa [asMatrix] using hp'.1, by simp [asMatrix, hp'.1, h0.1], by simpa [asMatrix] using hp'.2⟩
+
+end DendroModel.C19
+
+namespace DendroModel.C19.Aux
+open DendroModel.C19
+def pB : Parsed := { label := none, rows := [(1, [5]), (0, [6])] }
+example : finalTaxa [] [pA, pB] = [0, 1] ∧ finalTaxa [] [pA, pB] ≠ [] := by decide
+example : ∃ r, concatFromStreamsNS 0 (fun o : Option Parsed => o) [some pA, some pB] = .ok r :=
+  (fromStreamsNS_ok_iff 0 _ _ pA [pB] rfl (by decide)).mpr (by decide)
+example : ∃ m', getItem { mA with rows := [(1, [3])] } 0 = .ok (m', []) ∧ keys m'.rows = [1, 0] := ⟨_, rfl, rfl⟩
+end DendroModel.C19.Aux
